@@ -389,6 +389,12 @@ func processPendingTxs(ctx *context, txs []*types.Transaction, forceSettled map[
 					}
 				}
 				if tx == nil {
+					// The tx lookup index only knows the local CANONICAL chain. A pending transaction of this staking period
+					// always sits in an ancestor of the block in hand, which need not be canonical (yet) on this node:
+					// a side chain under verification, a fork the node has switched away from. Find it by ancestry.
+					tx = pendingTxFromAncestors(ctx, txHash)
+				}
+				if tx == nil {
 					logging.Error("SHOULD NOT HAPPEN. tx not exist", "txHash", txHash.String())
 					return fmt.Errorf("tx not exist, txHash=%s", txHash.String())
 				}
@@ -407,6 +413,25 @@ func processPendingTxs(ctx *context, txs []*types.Transaction, forceSettled map[
 	})
 
 	return err
+}
+
+// pendingTxFromAncestors looks for a transaction in the bodies of the ancestors of ctx.header that belong to the
+// current staking period (pending records never outlive their period).
+func pendingTxFromAncestors(ctx *context, txHash common.Hash) *types.Transaction {
+	number := ctx.header.Number.Uint64()
+	hash := ctx.header.ParentHash
+	for i := uint64(0); i < ctx.config.StakingTrieFrequency && number > 0; i++ {
+		number--
+		block := ctx.chain.GetBlock(hash, number)
+		if block == nil {
+			return nil
+		}
+		if tx := block.Transaction(txHash); tx != nil {
+			return tx
+		}
+		hash = block.ParentHash()
+	}
+	return nil
 }
 
 func settleValidatorRewards(ctx *context, val *state.Validator, currRound uint64) {
